@@ -48,7 +48,7 @@ func TestHOBGenericHeader(t *testing.T) {
 		flds: []fld{{"type", 0, 2, fU}, {"length", 2, 4, fU}, {"reserved", 4, 8, fZero}},
 	}
 	s.enc = writeToEnc(func(v []val) writerTo { return hdrOf(v) })
-	runFlat(t, s, ev.Scale(800, 10000))
+	runFlat(t, s, ev.Scale(2000, 12000))
 }
 
 func TestHOBHandoffInfoTable(t *testing.T) {
@@ -63,7 +63,7 @@ func TestHOBHandoffInfoTable(t *testing.T) {
 			EfiMemoryTop: oabi.EFIPhysicalAddress(v[5].u), EfiMemoryBottom: oabi.EFIPhysicalAddress(v[6].u), EfiFreeMemoryTop: oabi.EFIPhysicalAddress(v[7].u),
 			EfiFreeMemoryBottom: oabi.EFIPhysicalAddress(v[8].u), EfiEndOfHobList: oabi.EFIPhysicalAddress(v[9].u)}
 	})
-	runFlat(t, s, ev.Scale(800, 10000))
+	runFlat(t, s, ev.Scale(2000, 12000))
 }
 
 func TestHOBResourceDescriptor(t *testing.T) {
@@ -77,7 +77,7 @@ func TestHOBResourceDescriptor(t *testing.T) {
 		return oabi.EFIHOBResourceDescriptor{Header: hdrOf(v), Owner: efiGUIDFromVal(v[3]), ResourceType: oabi.EFIResourceType(v[4].u),
 			ResourceAttribute: oabi.EFIResourceAttributeType(v[5].u), PhysicalStart: oabi.EFIPhysicalAddress(v[6].u), ResourceLength: v[7].u}
 	})
-	runFlat(t, s, ev.Scale(800, 10000))
+	runFlat(t, s, ev.Scale(2000, 12000))
 }
 
 func TestHOBConstants(t *testing.T) {
@@ -99,7 +99,7 @@ func TestHOBConstants(t *testing.T) {
 func TestHOBGUIDWriteTo(t *testing.T) {
 	const name = "hob/guid"
 	ev.Rule(name, "EFIHOBGUID{Header, GUID, Data} with data length 0..64 (and occasionally ~4 KiB), HobType in {4, other}, HobLength in {24+len, off by +-1/+-8, arbitrary}; oracle: type 4 and length 24+len => WriteTo succeeds, returns 24+len, bytes == header image (type@0 len@2 zero@4) + EFI GUID @8 + data @24; anything else refused; changing the GUID changes only [8,24), changing data byte i only 24+i; non-trivial = data non-empty or refused; distinct = (class, length bucket)")
-	checks(ev.Scale(800, 10000))
+	checks(ev.Scale(2000, 12000))
 	rapid.Check(t, func(t *rapid.T) {
 		n := rapid.IntRange(0, 64).Draw(t, "len")
 		if rapid.IntRange(0, 15).Draw(t, "big") == 0 {
